@@ -7,18 +7,21 @@ From SL Require Import PyInt LoopSem ScreenSem ScreenMon proofs.ScreenLink proof
 Import ListNotations.
 
 Theorem C08_lifecycle_proof specs specl typed quit run_empty fuel acts :
+  failing_setup_plain specs ->
   (forall n, specs n = nth n specl default_spec) -> wf_session specl quit acts = true ->
   sok chk_C08 typed (rev (trace (snd (app_run_all specs specl typed quit run_empty fuel acts)))) = true.
 Proof.
-  intros Hs Hw. apply acc_sok. eapply acc_weaken; [|apply (app_accepted true); intros _; split; [exact Hs | exact Hw]].
+  intros Hpl Hs Hw. apply acc_sok.
+  eapply acc_weaken; [|apply (app_accepted true); [exact Hpl | intros _; split; [exact Hs | exact Hw]]].
   intros w e H. unfold chkb in H. apply andb_true_iff in H. exact (proj2 H).
 Qed.
 
 (* both acceptors at once (used by the examples) *)
 Theorem C04_C08_proof specs specl typed quit run_empty fuel acts :
+  failing_setup_plain specs ->
   (forall n, specs n = nth n specl default_spec) -> wf_session specl quit acts = true ->
   sok (chkb true) typed (rev (trace (snd (app_run_all specs specl typed quit run_empty fuel acts)))) = true.
-Proof. intros Hs Hw. apply acc_sok. apply (app_accepted true). intros _. split; assumption. Qed.
+Proof. intros Hpl Hs Hw. apply acc_sok. apply (app_accepted true); [exact Hpl|]. intros _. split; assumption. Qed.
 
 (* ---------------------------------------------------------------- what acceptance says, event by event *)
 Notation world typed t := (fold_left sworld_step t (sworld0 typed)).
@@ -66,7 +69,8 @@ Proof.
       intros E. right. exists args, text, r. inversion E. auto.
     + destruct (tag =? T_SETUP)%nat; [destruct (nth0 args 3 =? 1)%nat; auto|].
       destruct (tag =? T_REFRESH)%nat; [auto|]. destruct (tag =? T_SHOW)%nat; [auto|].
-      destruct (tag =? T_CLOSED)%nat; [discriminate | auto].
+      destruct (tag =? T_CLOSED)%nat; [discriminate|].
+      destruct (tag =? T_SETUP_BEGIN)%nat; auto.
 Qed.
 
 (* a draw happens only right after the refresh of the same entry in the same _process_screen *)
@@ -104,34 +108,89 @@ Proof.
       intros E _. inversion E; subst. left. eauto. }
     destruct (tag =? T_SHOW)%nat.
     { cbn [c_pframes]. destruct (c_pframes (core w)); [discriminate|]. intros E Hs. inversion E; subst. discriminate. }
-    destruct (tag =? T_CLOSED)%nat; auto.
+    destruct (tag =? T_CLOSED)%nat; [auto|].
+    destruct (tag =? T_SETUP_BEGIN)%nat; [|auto].
+    cbn [c_pframes]. destruct (c_pframes (core w)); [discriminate|]. intros E Hs. inversion E; subst. discriminate.
 Qed.
 
 (* setup() only for a screen that is not ready yet, refresh() only for a ready one; both with the arguments
    of the top entry, at the start of a _process_screen *)
+(* (T_SETUP is logged when setup() RETURNS; a setup() that runs commands of its own logs T_SETUP_BEGIN on entry, and the
+   conditions are checked there: [accepted_setup_begin]; its return is recognised by [in_setup_of]) *)
 Lemma accepted_setup typed t1 i scr args ok tx t2 :
   sok chk_C08 typed (t1 ++ EUser T_SETUP [i; scr; args; ok] tx :: t2) = true ->
-  mem scr (sw_ready (world typed t1)) = false /\
-  (exists e, top_entry (world typed t1) = Some e /\ en_args e = args) /\
+  (mem scr (sw_ready (world typed t1)) = false /\
+   (exists e, top_entry (world typed t1) = Some e /\ en_args e = args) \/
+   in_setup_of (world typed t1) i = true) /\
   exists f r, sw_pframes (world typed t1) = f :: r /\ pf_state f = 0.
 Proof.
   intros H. apply sok_event in H. unfold chk_C08 in H. apply andb_true_iff in H as [_ H].
-  cbn [Nat.eqb T_SETUP nth0 nth] in H. rewrite !andb_true_iff in H. destruct H as [[H1 H2] H3].
-  split; [apply negb_true_iff; exact H1|]. split.
-  - destruct (top_entry (world typed t1)) as [e|]; [|discriminate]. apply Nat.eqb_eq in H2. eauto.
+  cbn [Nat.eqb T_SETUP nth0 nth] in H. apply andb_true_iff in H as [H12 H3]. split.
+  - apply orb_true_iff in H12 as [H12|H12]; [left | right; exact H12].
+    apply andb_true_iff in H12 as [H1 H2]. split; [apply negb_true_iff; exact H1|].
+    destruct (top_entry (world typed t1)) as [e|]; [|discriminate]. apply Nat.eqb_eq in H2. eauto.
   - destruct (sw_pframes (world typed t1)) as [|f r]; [discriminate|]. apply Nat.eqb_eq in H3. eauto.
+Qed.
+
+(* a setup() that runs commands is ENTERED only for a screen not yet ready, with the top entry's arguments, as the first
+   thing of a _process_screen frame, and not while a failed entry waits for its discard *)
+Lemma accepted_setup_begin typed t1 i scr args tx t2 :
+  sok chk_C08 typed (t1 ++ EUser T_SETUP_BEGIN [i; scr; args] tx :: t2) = true ->
+  mem scr (sw_ready (world typed t1)) = false /\
+  (exists e, top_entry (world typed t1) = Some e /\ en_args e = args) /\
+  (exists f r, sw_pframes (world typed t1) = f :: r /\ pf_state f = 0 /\ pf_id f = 0) /\
+  sw_failed (world typed t1) = None.
+Proof.
+  intros H. apply sok_event in H. unfold chk_C08 in H. apply andb_true_iff in H as [_ H].
+  cbn [Nat.eqb T_SETUP T_SETUP_BEGIN nth0 nth] in H. rewrite !andb_true_iff in H. destruct H as [[[H1 H2] H3] H4].
+  split; [apply negb_true_iff; exact H1|]. split; [|split].
+  - destruct (top_entry (world typed t1)) as [e|]; [|discriminate]. apply Nat.eqb_eq in H2. eauto.
+  - destruct (sw_pframes (world typed t1)) as [|f r]; [discriminate|].
+    apply andb_true_iff in H3 as [H3 H3']. apply Nat.eqb_eq in H3, H3'. eauto.
+  - destruct (sw_failed (world typed t1)); [discriminate | reflexivity].
+Qed.
+
+(* "inside the setup() of entry i" is a state of the innermost frame that only T_SETUP_BEGIN of entry i creates; the
+   frame's T_REFRESH / T_SHOW end it; nested frames leave it alone *)
+Lemma in_setup_armed w e i :
+  in_setup_of (sworld_step w e) i = true ->
+  (exists a t, e = EUser T_SETUP_BEGIN a t /\ nth0 a 0 = i) \/ in_setup_of w i = true \/
+  (exists h sid how g r, e = EHandlerEnd h sid how /\ sw_pframes w = g :: r /\ sw_pframes (sworld_step w e) = r).
+Proof.
+  unfold in_setup_of.
+  change (sw_pframes (sworld_step w e)) with (c_pframes (core (sworld_step w e))). rewrite core_step.
+  change (sw_pframes w) with (c_pframes (core w)).
+  destruct e; cbn [cstep]; auto; try discriminate.
+  - destruct (hid =? H_RENDER)%nat; auto. cbn [c_pframes pf_state pf_id Nat.eqb andb]. discriminate.
+  - destruct (hid =? H_RENDER)%nat; auto. cbn [c_pframes].
+    destruct (c_pframes (core w)) as [|g l]; cbn [tl]; [discriminate|]. intros H. right. right. eauto 8.
+  - unfold cuser.
+    destruct (tag =? T_OP)%nat; [auto|].
+    destruct (tag =? T_STACK)%nat.
+    { destruct (nth0 args 0 =? K_APPEND)%nat; [auto|]. destruct (nth0 args 0 =? K_ADD_FIRST)%nat; [auto|].
+      destruct (c_expect (core w)) as [|[[]| |] l]; auto. }
+    destruct (tag =? T_SETUP)%nat; [destruct (nth0 args 3 =? 1)%nat; auto|].
+    destruct (tag =? T_REFRESH)%nat.
+    { cbn [c_pframes]. destruct (c_pframes (core w)); [discriminate|]. cbn [pf_state Nat.eqb andb]. discriminate. }
+    destruct (tag =? T_SHOW)%nat.
+    { cbn [c_pframes]. destruct (c_pframes (core w)); [discriminate|]. cbn [pf_state Nat.eqb andb]. discriminate. }
+    destruct (tag =? T_CLOSED)%nat; [auto|].
+    destruct (tag =? T_SETUP_BEGIN)%nat eqn:Eb; [|auto].
+    apply Nat.eqb_eq in Eb. subst tag. cbn [c_pframes]. destruct (c_pframes (core w)); [discriminate|].
+    cbn [pf_state pf_id Nat.eqb andb]. intros H. apply Nat.eqb_eq in H. left. eauto.
 Qed.
 
 Lemma accepted_refresh typed t1 i scr args tx t2 :
   sok chk_C08 typed (t1 ++ EUser T_REFRESH [i; scr; args] tx :: t2) = true ->
   mem scr (sw_ready (world typed t1)) = true /\
-  (exists e, top_entry (world typed t1) = Some e /\ en_args e = args) /\
+  ((exists e, top_entry (world typed t1) = Some e /\ en_args e = args) \/ in_setup_of (world typed t1) i = true) /\
   exists f r, sw_pframes (world typed t1) = f :: r /\ pf_state f = 0.
 Proof.
   intros H. apply sok_event in H. unfold chk_C08 in H. apply andb_true_iff in H as [_ H].
-  cbn [Nat.eqb T_SETUP T_REFRESH nth0 nth] in H. rewrite !andb_true_iff in H. destruct H as [[H1 H2] H3].
+  cbn [Nat.eqb T_SETUP T_SETUP_BEGIN T_REFRESH nth0 nth] in H. rewrite !andb_true_iff in H. destruct H as [[H1 H2] H3].
   split; [exact H1|]. split.
-  - destruct (top_entry (world typed t1)) as [e|]; [|discriminate]. apply Nat.eqb_eq in H2. eauto.
+  - apply orb_true_iff in H2 as [H2|H2]; [left | right; exact H2].
+    destruct (top_entry (world typed t1)) as [e|]; [|discriminate]. apply Nat.eqb_eq in H2. eauto.
   - destruct (sw_pframes (world typed t1)) as [|f r]; [discriminate|]. apply Nat.eqb_eq in H3. eauto.
 Qed.
 
@@ -150,7 +209,7 @@ Proof.
     destruct (tag =? T_SETUP)%nat.
     { destruct (nth0 args 3 =? 1)%nat; auto. cbn [c_ready]. intros H. unfold mem in *. cbn [existsb]. rewrite H. apply orb_true_r. }
     destruct (tag =? T_REFRESH)%nat; [auto|]. destruct (tag =? T_SHOW)%nat; [auto|].
-    destruct (tag =? T_CLOSED)%nat; auto.
+    destruct (tag =? T_CLOSED)%nat; [auto|]. destruct (tag =? T_SETUP_BEGIN)%nat; auto.
 Qed.
 
 (* after a failed setup: the entry is discarded at once (any other stack / operation / prompt event is rejected) *)
@@ -169,18 +228,21 @@ Proof.
   { change (c_failed (core (sworld_step w (EUser T_SETUP [i; scr; args; 0] tx0))) = Some i). rewrite core_step. reflexivity. }
   unfold chk_C08 in H. apply andb_true_iff in H as [_ H]. rewrite Hf in H.
   apply Nat.eqb_neq in N1, N2, N3, N4. rewrite N1, N2, N3, N4 in H.
+  destruct (tag =? T_SETUP_BEGIN)%nat; [rewrite andb_false_r in H; discriminate|].
   destruct ((tag =? T_STACK)%nat && (nth0 a 0 =? K_POP)%nat) eqn:E; [|discriminate].
   apply andb_true_iff in E as [E1 E2]. apply Nat.eqb_eq in E1, E2, H. auto.
 Qed.
 
 (* ---------------------------------------------------------------- packaged statements for props/C08.v *)
 Lemma ready_link specs specl typed quit run_empty fuel acts :
+  failing_setup_plain specs ->
   (forall n, specs n = nth n specl default_spec) -> wf_session specl quit acts = true ->
   Forall finished (fst (app_run_all specs specl typed quit run_empty fuel acts)) ->
   slink typed (snd (app_run_all specs specl typed quit run_empty fuel acts)).
-Proof. intros. apply (app_slink true); [intros _; split; assumption | assumption]. Qed.
+Proof. intros. apply (app_slink true); [assumption | intros _; split; assumption | assumption]. Qed.
 
 Lemma frames_balanced typed specs nscr Ps pf f c s o s' :
+  failing_setup_plain specs ->
   (forall x, spec_wf nscr (specs x) = true) ->
   is_prog c = false -> Inv typed true nscr Ps pf s ->
   exec (screen_code specs) f c s = (o, s') ->
@@ -189,8 +251,8 @@ Lemma frames_balanced typed specs nscr Ps pf f c s o s' :
   | _ => Inv typed true nscr Ps pf s' /\ sw_pframes (SW typed s') = pf
   end.
 Proof.
-  intros Hw Hc HI E.
-  pose proof (exec_inv typed true specs nscr (fun _ => Hw) Ps pf f c s o s' Hc HI E) as P.
+  intros Hpl Hw Hc HI E.
+  pose proof (exec_inv typed true specs Hpl nscr (fun _ => Hw) Ps pf f c s o s' Hc HI E) as P.
   destruct o as [|x| |]; try exact P; (split; [exact P | eapply Inv_pframes; exact P]).
 Qed.
 
@@ -225,3 +287,33 @@ Definition bad_setup_twice : list event :=
 Definition bad_refresh_after_failed_setup : list event :=
   [ETop; EUser T_OP [O_SCHEDULE; 0; 0] []; EUser T_STACK [K_ADD_FIRST; 0; 0; 0; 0] [];
    EHandler H_RENDER 0 0; EUser T_SETUP [0; 0; 0; 0] []; EUser T_REFRESH [0; 0; 0] []].
+
+(* ---------------------------------------------------------------- a setup() that pushes a screen and then reports failure *)
+(* the session of proofs/C04Proofs.v ([fs_specl]): screen 0's setup() pushes screen 1 and reports failure.  The
+   scheduler's discard pops the pushed screen, not the failed entry: "an entry whose setup failed is discarded at once"
+   is violated (finding: a failing setup() must not have changed the stack) *)
+Example C08_failed_setup_after_push_refuted :
+  sok chk_C08 fs_typed (rev (trace (snd (app_run_all (fs_specs [false]) (fs_specl [false]) fs_typed None false fs_fuel fs_acts)))) = false.
+Proof. vm_compute; reflexivity. Qed.
+
+(* what is popped: the first discard concerns entry 1 (the pushed screen 1), after T_SETUP [0; 0; 0; 0] of entry 0 *)
+Example C08_failed_setup_after_push_trace :
+  filter (fun e => match e with EUser g _ _ => (g =? T_SETUP)%nat || (g =? T_SETUP_BEGIN)%nat || (g =? T_STACK)%nat | _ => false end)
+         (firstn 22 (rev (trace (snd (app_run_all (fs_specs [false]) (fs_specl [false]) fs_typed None false fs_fuel fs_acts))))) =
+  [EUser T_STACK [K_ADD_FIRST; 0; 0; 0; 0] []; EUser T_SETUP_BEGIN [0; 0; 0] []; EUser T_STACK [K_APPEND; 1; 1; 0; 0] [];
+   EUser T_SETUP [0; 0; 0; 0] []; EUser T_STACK [K_POP; 1; 1; 0; 0] []].
+Proof. vm_compute. reflexivity. Qed.
+
+(* the same session with a setup() that succeeds is accepted (and is well formed) *)
+Example C08_setup_push_accepted :
+  wf_session (fs_specl []) None fs_acts = true /\
+  sok chk_C08 fs_typed (rev (trace (snd (app_run_all (fs_specs []) (fs_specl []) fs_typed None false fs_fuel fs_acts)))) = true /\
+  fst (app_run_all (fs_specs []) (fs_specl []) fs_typed None false fs_fuel fs_acts) = [ONormal; ONormal].
+Proof. vm_compute. repeat split. Qed.
+
+(* this session satisfies the hypothesis of the theorems: the setup() that pushes never reports failure *)
+Lemma fs_failing_setup_plain : failing_setup_plain (fs_specs []).
+Proof. intros s H. destruct s as [|[|[|s]]]; cbn in H; destruct H. Qed.
+(* ... the failing variant does not *)
+Lemma fs_not_failing_setup_plain : ~ failing_setup_plain (fs_specs [false]).
+Proof. intros H. specialize (H 0 (or_introl eq_refl)). discriminate H. Qed.
